@@ -31,6 +31,11 @@ CHECKS['C20'] = dict(
    text='Part 1 is exhaustive over all 164 unassigned codes x 256 count bytes x 6 stack depths (run_script outcome, stack, cache, tape position) plus compile / decompile naming for every code x count. Part 2 is generated-input search: fork ops following the readme contract installed at free codes; every generated script (fork op at any nesting depth, never inside TRY) must satisfy upgraded-authorises => old-authorises and leave identical state when the fork op did not raise; every name / alias spelling in every block context must compile on the upgraded VM to the bytes of the NOPn spelling and be accepted wherever NOPn is; decompile must name the op and round-trip.',
    note='Both VMs live in one worker process: registries are snapshotted and restored in place between configurations. The fork-op family is the readme contract (signed count, pull that many, raise or not); ops that do other things are outside the property.',
    design='3/C20')
+CHECKS['C07'] = dict(
+   technique='Hypothesis-generated resource-hungry programs x limit triples executed under step monitors (deque, Tape, run_tape, CALL/EVAL chain) and tracemalloc; invariants checked on every mutation / read / activation',
+   text='Generated-input search with step invariants. Monitors (harness-side subclasses of deque / Stack / Tape and wrappers of run_tape / OP_CALL / OP_EVAL) check after every stack mutation that length <= max_items and every item <= max_item_size, that no append reaches a deque at maxlen (silent drop), that every read is non-negative, in bounds and monotone per activation, that the live CALL/EVAL chain and callstack_count stay <= the limit, that loop resets stay <= the limit, and that every rejected put / read / call ends in ScriptExecutionError. Escaping MemoryError / RecursionError / SystemError, token_bytes requests above the item limit and a tracemalloc peak above a bound derived from the limits are violations. A fixed family nests IF / TRY / LOOP / IF_ELSE to depth 1200 and recurses through CALL / EVAL under call limits up to 2000.',
+   note='Monitors abort the case at the first violation (a non-terminating loop is detected through the iteration bound, not waited for). Recursion headroom is pinned to 1000 frames. Vacuity guards require every limit class (item size, full stack, read past end, call, loop) to be hit.',
+   design='3/C07')
 NOT_YET = {}
 for i in range(1, 21):
     pid = 'C%02d' % i
